@@ -201,6 +201,20 @@ def run(ctx):
                 break
             kw, meta = M.gen_rule(rng, R, zs)
             one_rule(ctx, R, probe, kw, meta)
+        # directed: week numbers around every kind of year boundary (28 consecutive years cover all 14 calendars) for every week start
+        k = 0
+        for wk in range(7):
+            for y in range(1995, 2023):
+                for wn in (1, 2, 52, 53, -1, -2, -52, -53):
+                    k += 1
+                    if k % ctx.nshards != ctx.shard:
+                        continue
+                    if ctx.tier == 'quick' and (y + wk + wn) % 3:
+                        continue
+                    freq, extra = ((R.DAILY, {}) if k % 2 else (R.YEARLY, {'byweekday': [R.MO, R.WE, R.SU]}))
+                    kw = dict(freq=freq, dtstart=D.datetime(y, 12, 15, 9), byweekno=[wn], wkst=wk, count=12, **extra)
+                    one_rule(ctx, R, probe, kw, {'start_kind': 'naive'})
+                    ctx.count('weekno_boundary_rules')
         # rules that can never match: ValueError or nothing, never a wrong instant
         for base in NEVER:
             for st in (D.datetime(1997, 9, 2, 9, 0, 0), D.datetime(2000, 2, 29, 1, 7, 30)):
@@ -235,6 +249,8 @@ def floors(agg, tier):
         out.append('period probe observed only %d periods' % c.get('periods_observed', 0))
     if c.get('probe_degraded'):
         out.append('period probe could not locate the loop header / cursor: iterations were bounded by line budget only')
+    if c.get('weekno_boundary_rules', 0) < 400:
+        out.append('only %d directed week-number rules' % c.get('weekno_boundary_rules', 0))
     if c.get('never_matching_rules', 0) < len(NEVER) * 2:
         out.append('never-matching class incomplete')
     if len(agg['distinct']) < (600 if tier == 'quick' else 3000):
